@@ -65,7 +65,8 @@ type hvar struct {
 	group    int
 	nodes    []any // storage nodes on the way from the group's root wrapper to this wrapper's node
 	field    string
-	detached bool // wraps a default value that is not part of any message
+	shape    string // for plain containers ('p'): the view-* shape of how the elements were captured
+	detached bool   // wraps a default value that is not part of any message
 }
 
 type victim struct {
@@ -89,6 +90,7 @@ type hop struct {
 	dst      string // variable receiving the result ("" = none)
 	dstKind  byte
 	dstField string
+	dstShape string
 	rootVar  string // variable through which the operation addresses storage ("" = constructs only)
 	opNodes  []any  // storage nodes addressed, in order
 	alias    string // tag for edges this operation creates towards existing nodes
@@ -429,6 +431,8 @@ func (h *hist) richCtor(depth int) string {
 	add(0.3, fmt.Sprintf("f_uint64 = %d", uint64(1<<63)+uint64(h.fresh())))
 	add(0.5, fmt.Sprintf("r_int32 = [%d, %d]", h.fresh(), h.fresh()))
 	add(0.5, fmt.Sprintf("mv_int32 = {\"k0\": %d}", h.fresh()))
+	add(0.15, fmt.Sprintf("r_msg = [%s.Sub(i = %d)], mv_msg = {\"k0\": %s.Sub(i = %d)}, f_msg = %s.Sub(i = %d)", h.F, h.fresh(), h.F, h.fresh(), h.F, h.fresh()))
+	add(0.15, "r_other = [1, 7]")
 	if depth > 0 {
 		add(0.7, "f_rec = "+h.richCtor(depth-1))
 		add(0.6, "r_rec = ["+h.richCtor(depth-1)+", "+h.richCtor(0)+"]")
@@ -438,7 +442,7 @@ func (h *hist) richCtor(depth int) string {
 }
 
 func (h *hist) pickVarName(kind byte, allowNew bool) string {
-	names := map[byte][]string{'m': {"a", "b", "c", "d"}, 'r': {"r0", "r1"}, 'k': {"k0", "k1"}}[kind]
+	names := map[byte][]string{'m': {"a", "b", "c", "d"}, 'r': {"r0", "r1"}, 'k': {"k0", "k1"}, 'p': {"p0", "p1"}}[kind]
 	if allowNew {
 		return names[h.r.Intn(len(names))]
 	}
@@ -532,7 +536,7 @@ func (h *hist) genOp() *hop {
 	}
 	hvP := h.vars[P.v]
 
-	switch k := r.Intn(100); {
+	switch k := r.Intn(112); {
 	case k < 6: // construct
 		dst := h.pickVarName('m', true)
 		return &hop{name: "construct", stmt: "return " + h.richCtor(2), dst: dst, dstKind: 'm', newGroup: true}
@@ -847,8 +851,83 @@ func (h *hist) genOp() *hop {
 		}
 	case k < 95: // deep copy by encoding
 		return &hop{name: "reencode", stmt: fmt.Sprintf("return proto.unmarshal(%s.All, proto.marshal(%s))", h.F, ps), dst: h.pickVarName('m', true), dstKind: 'm', newGroup: true}
-	default:
+	case k < 100:
 		return h.genFreeze()
+	case k < 105: // capture element wrappers in a plain Starlark container
+		forms := []struct{ field, shape, expr string }{
+			{"mv_rec", "view-dict-of-map", "dict(%s.mv_rec)"},
+			{"mv_rec", "view-dict-of-map", "dict(%s.mv_rec, zz = 1)"},
+			{"mv_rec", "view-items-of-map", "dict(%s.mv_rec).items()"},
+			{"mv_rec", "view-iteration-variable", "[%[1]s.mv_rec[k] for k in %[1]s.mv_rec]"},
+			{"r_rec", "view-list-of-repeated", "list(%s.r_rec)"},
+			{"r_rec", "view-list-of-repeated", "tuple(%s.r_rec)"},
+			{"r_rec", "view-list-of-repeated", "sorted(%s.r_rec, key = lambda e: e.f_int32)"},
+			{"r_rec", "view-iteration-variable", "[e for e in %s.r_rec]"},
+		}
+		f := forms[r.Intn(len(forms))]
+		var cont any
+		if f.field == "r_rec" {
+			cont, _ = listNode(pMsg, f.field)
+		} else {
+			cont, _ = mapNode(pMsg, f.field)
+		}
+		return &hop{name: "capture-plain", stmt: "return " + fmt.Sprintf(f.expr, ps), dst: h.pickVarName('p', true), dstKind: 'p', dstShape: f.shape, rootVar: P.v, opNodes: withNode(pNodes, cont)}
+	case k < 110: // mutate through an element held by a plain container
+		name := h.pickVarName('p', false)
+		if name == "" {
+			return nil
+		}
+		hv := h.vars[name]
+		type el struct {
+			acc string
+			m   *sproto.Message
+		}
+		var els []el
+		vs := fmt.Sprintf("v[%q]", name)
+		add := func(acc string, x starlark.Value) {
+			if t, ok := x.(starlark.Tuple); ok && len(t) == 2 {
+				x, acc = t[1], acc+"[1]"
+			}
+			if m, ok := x.(*sproto.Message); ok {
+				els = append(els, el{acc, m})
+			}
+		}
+		switch cv := hv.val.(type) {
+		case *starlark.Dict:
+			for _, kv := range cv.Items() {
+				add(fmt.Sprintf("%s[%s]", vs, kv[0].String()), kv[1])
+			}
+		case starlark.Indexable:
+			for i := 0; i < cv.Len(); i++ {
+				add(fmt.Sprintf("%s[%d]", vs, i), cv.Index(i))
+			}
+		}
+		if len(els) == 0 {
+			return nil
+		}
+		x := els[r.Intn(len(els))]
+		n := h.fresh()
+		stmt := [...]string{
+			fmt.Sprintf("%s.f_int32 = %d", x.acc, n),
+			fmt.Sprintf("%s.r_int32 = [%d]", x.acc, n),
+			fmt.Sprintf("%s.mv_int32 = {\"k0\": %d}", x.acc, n),
+			fmt.Sprintf("proto.set_field(%s, %s.All.f_int32, %d)", x.acc, h.F, n),
+			fmt.Sprintf("%s.f_rec = {\"f_int32\": %d}", x.acc, n),
+		}[r.Intn(5)]
+		return &hop{name: "plain-elem-mutate", stmt: stmt, rootVar: name, opNodes: withNode(hv.nodes, any(pm(x.m))), direct: hv.shape, mutating: true}
+	default: // assign a live view of a field of a different message type (must fail cleanly)
+		stmt := [...]string{
+			fmt.Sprintf("%s.r_rec = %s.r_msg", ps, qs),
+			fmt.Sprintf("%s.r_msg = %s.r_rec", ps, qs),
+			fmt.Sprintf("%s.mv_rec = %s.mv_msg", ps, qs),
+			fmt.Sprintf("%s.r_enum = %s.r_other", ps, qs),
+			fmt.Sprintf("%s.f_rec = %s.f_msg", ps, qs),
+		}[r.Intn(5)]
+		if !qOK {
+			return nil
+		}
+		pl, _ := listNode(pMsg, "r_rec")
+		return &hop{name: "cross-type-view-assign", stmt: stmt, rootVar: P.v, opNodes: withNode(pNodes, pl), direct: "direct-list-assign", mutating: true}
 	}
 }
 
@@ -1098,9 +1177,11 @@ func (h *hist) exec(o *hop, at int) {
 		c.Count("history_op_errors", 1)
 		if strings.Contains(err.Error(), "frozen") {
 			c.Count("history_frozen_rejections", 1)
+			c.Cover("history_ops_rejected_as_frozen", o.name)
 		}
 	} else {
 		c.Count("history_ops_ok", 1)
+		c.Cover("history_ops_succeeded", o.name)
 		if o.onOK != nil && p == nil {
 			o.onOK()
 		}
@@ -1111,7 +1192,7 @@ func (h *hist) exec(o *hop, at int) {
 
 	// result variable
 	if o.dst != "" && err == nil && p == nil && res != nil {
-		hv := &hvar{name: o.dst, val: res, kind: o.dstKind, field: o.dstField}
+		hv := &hvar{name: o.dst, val: res, kind: o.dstKind, field: o.dstField, shape: o.dstShape}
 		ok := true
 		switch o.dstKind {
 		case 'm':
